@@ -210,8 +210,10 @@ def newOps {B : Type} (adv : Bool) (b : Base B) (mk : Int → B) (pos : B → In
   index _ := 0
   rel op _ l r := match op with
     | "eq" => some (NewF.eq b l r) | "ne" => some (NewF.ne b l r)
-    | "lt" => some (NewF.lt b l r) | "le" => some (NewF.le b l r)
-    | "gt" => some (NewF.gt b l r) | "ge" => some (NewF.ge b l r)
+    -- a derived class without base iterators (`adv`) gets the sign of `it1 - it2`, one with base iterators the
+    -- order of the base iterators
+    | "lt" => some (if adv then NewF.lt b l r else NewF.ltB b l r) | "le" => some (if adv then NewF.le b l r else NewF.leB b l r)
+    | "gt" => some (if adv then NewF.gt b l r else NewF.gtB b l r) | "ge" => some (if adv then NewF.ge b l r else NewF.geB b l r)
     | _ => none
   diff _ := NewF.diff b
   plusI := some (NewF.plus b)
@@ -495,12 +497,12 @@ def integralRangeOp (stat : Bool) (bits : Nat) (sgn : Bool) (f t : Int) (op : St
     showCmp7 (IR.ltW bits a b) (IR.leW bits a b) (IR.gtW bits a b) (IR.geW bits a b) (IR.eqW bits a b) (IR.neW bits a b)
       (IR.diffW bits a b)
   -- the same two positions as iterators of a transformed range over the integral range (new IteratorFacade over
-  -- the IntegralRangeIterator: comparisons derived from the machine difference of the base iterators)
+  -- the IntegralRangeIterator: comparisons forwarded to the base iterators, difference = their machine difference)
   | "tcmp", [x, y] =>
     if stat ∨ x < f ∨ x > t ∨ y < f ∨ y > t then "bad-op" else
     let bs := irBaseW bits
     let a : IR := ⟨x⟩; let b : IR := ⟨y⟩
-    showCmp7 (NewF.lt bs a b) (NewF.le bs a b) (NewF.gt bs a b) (NewF.ge bs a b) (NewF.eq bs a b) (NewF.ne bs a b)
+    showCmp7 (NewF.ltB bs a b) (NewF.leB bs a b) (NewF.gtB bs a b) (NewF.geB bs a b) (NewF.eq bs a b) (NewF.ne bs a b)
       (NewF.diff bs a b)
   -- the iterator at value x moved by n (any n of the difference type that stays inside the range):
   -- it+n, n+it, it+=n, it[n], it-(-n), it-=(-n)
